@@ -49,7 +49,7 @@ def repo_includes():
     return ['-I' + i for i in inc]
 
 CLANG_IR = ['clang++-14', '-std=c++11', '-O1', '-fno-exceptions', '-fno-vectorize', '-fno-slp-vectorize',
-            '-fno-unroll-loops', '-fno-threadsafe-statics', '-fno-builtin', '-nostdinc++', '-w',
+            '-fno-unroll-loops', '-fno-threadsafe-statics', '-fno-builtin', '-fno-pic', '-fno-jump-tables', '-nostdinc++', '-w',
             '-S', '-emit-llvm', '-DVSTD=1']
 
 # ------------------------------------------------------------------ process helpers
@@ -204,7 +204,7 @@ def build_irc_c(h, tier, wd, extra_defs):
     return genc, slim
 
 def build_goto_irc(h, tier, wd, extra_defs, tag, genc):
-    flags = ['-w', '-DVERIF_CBMC=1', '-I' + LIB, '-I' + os.path.dirname(vpath(h.harness))]
+    flags = ['-w', '-DVERIF_CBMC=1', '-DVERIF_IRC=1', '-I' + LIB, '-I' + os.path.dirname(vpath(h.harness))]
     defs = defflags(dict(h.tier_defs(tier), **extra_defs))
     objs = []
     for i, src in enumerate([genc, vpath(h.harness)] + [vpath(x) for x in h.extra + h.models]):
